@@ -26,6 +26,8 @@ XONSH_FORMS = [
 ]
 
 PY_SNIPPETS = [
+    "x = 'abc\\\ndef'\n", 'print("one \\\n two", 3)\n', "match x:\n    case (*rest,): pass\n    case (a, *b): pass\n    case [*_]: pass\n", "match x:\n    case (a): pass\n    case (a | b): pass\n",
+    "x = U'abc' u'd'\n", "y = B'b' Rb'c' bR'd'\n", "def f(*args: *Ts): pass\n", "x = a if b else c\nif x:\n    pass\n",
     'x = "pip\'s"\n', "y = 'say \"p\"'\n", 'z = "P\'m" + \'q"r\'\n', 'b = rb"it\'s"\n',
     "x = 1\n", "x += 1\n", "x: int = 1\n", "a, b = b, a\n", "a = b = c\n", "del a, b[0], c.d\n", "pass\n", "x = (1, 2,)\n",
     "x = [1, *a, 2]\n", "x = {1: 2, **d}\n", "x = {1, 2}\n", "x = a if b else c\n", "x = lambda a, b=1, *c, d, e=2, **f: 0\n",
